@@ -17,7 +17,7 @@ func init() {
 			"(R1) the processor keeps the record length twice (NSamples/NPresamples, used to cut records; EMTState.nsamp/npre, used to size the history kept between blocks): every function that can change either copy leaves them congruent on every path to every return; " +
 			"(R2) the number of samples kept when trimming is a*nsamp+b with a>=2, b>=0 of that record-length copy, and TrimStream passes exactly that to the trim; " +
 			"(R3) the scan window of the edge and level passes is [max(LastTrigger-firstFrame+NSamples, NPresamples), len+NPresamples-NSamples), the auto pass starts at max(LastTrigger-firstFrame+max(NSamples,autoDelay), NPresamples) and runs while t+NSamples-NPresamples < len, an edge trigger skips exactly one record; " +
-			"(R4) the hold-off reference is carried: TriggerData stores the last record's trigger frame into LastTrigger whenever records exist; (R5) every reconfiguration resets the edge-multi search state on each successful path. " +
+			"(R3 also: a record cut in a scan loop is cut at the very loop variable the scan-end test bounded) (R9) the passes that walk the found records with a cursor, and the last-trigger bookkeeping, get them in time order; (R4) the hold-off reference is carried: TriggerData stores the last record's trigger frame into LastTrigger whenever records exist; (R5) every reconfiguration resets the edge-multi search state on each successful path. " +
 			"Does not decide: the trigger criteria arithmetic on sample values, non-overlap and the auto-trigger gap bound (numeric over stream contents).",
 		RuleDocs: []string{
 			"C02.R1 two-copies congruence (E3) after every clobbering store (field store, whole-struct store, composite literal)",
@@ -27,6 +27,7 @@ func init() {
 			"C02.R5 must-pass-through EMTState.reset on successful reconfiguration",
 			"C02.R7 every record creation in a trigger pass is reachable only through the true side of the pass's enable flag and, where the pass has direction flags, through the true side of a direction test",
 			"C02.R8 in a pass that shifts the samples by a constant in the sample type, a bare shifted sample is compared in that type with a threshold that received the same constant in the same type",
+			"C02.R9 time order of the found records where it is relied on: every pass of TriggerData that walks the records found so far by index, and the LastTrigger bookkeeping that takes the last record as the latest, receive a list that is empty, sorted by a dominating sort, or returned by passes whose every return hands the ordered argument back or sorts what it appended",
 			"C02.R6 initial hold-off: every store to LastTrigger reachable from the per-start preparation step writes a far-past constant (so the first block is searched from NPresamples on)",
 		},
 		Run: runC02,
@@ -39,8 +40,9 @@ func runC02(p *Prog, r *Report) {
 	r.MinInstances["C02.R3"] = 7
 	r.MinInstances["C02.R4"] = 1
 	r.MinInstances["C02.R5"] = 2
-	r.MinInstances["C02.R7"] = 5
+	r.MinInstances["C02.R7"] = 8
 	r.MinInstances["C02.R8"] = 4
+	r.MinInstances["C02.R9"] = 3
 	c02R1(p, r)
 	c02R2(p, r)
 	c02R3(p, r)
@@ -49,6 +51,7 @@ func runC02(p *Prog, r *Report) {
 	c02R6(p, r)
 	c02R7(p, r)
 	c02R8(p, r)
+	c02R9(p, r)
 }
 
 // lastField returns the final field name of an address and the struct it belongs to.
@@ -251,15 +254,32 @@ func c02R2(p *Prog, r *Report) {
 		return
 	}
 	r.OK("C02.R2", "TrimStream argument", p.InstrPos(trimCall), "TrimKeepingN("+FuncName(keepFn)+"())")
-	r.Fn(FuncName(keepFn))
-	c := NewPolyCtx(keepFn)
-	Instrs(keepFn, func(in ssa.Instruction) {
-		ret, ok := in.(*ssa.Return)
-		if !ok {
+	// every return of the helper; a return that hands on the result of another module helper is
+	// judged in that helper (each helper once)
+	judged := map[*ssa.Function]bool{}
+	var judgeFn func(f *ssa.Function, depth int)
+	judgeFn = func(f *ssa.Function, depth int) {
+		if judged[f] {
 			return
 		}
-		judge(c.Of(ret.Results[0]), p.InstrPos(ret), FuncName(keepFn))
-	})
+		judged[f] = true
+		r.Fn(FuncName(f))
+		c := NewPolyCtx(f)
+		Instrs(f, func(in ssa.Instruction) {
+			ret, ok := in.(*ssa.Return)
+			if !ok || len(ret.Results) == 0 {
+				return
+			}
+			if call, isCall := stripConv(ret.Results[0]).(*ssa.Call); isCall && depth > 0 {
+				if g := call.Call.StaticCallee(); g != nil && isModuleFn(g) && g.Blocks != nil && len(call.Call.Args) <= 1 {
+					judgeFn(g, depth-1)
+					return
+				}
+			}
+			judge(c.Of(ret.Results[0]), p.InstrPos(ret), FuncName(f))
+		})
+	}
+	judgeFn(keepFn, 2)
 }
 
 // ---- R3 -----------------------------------------------------------------------------------
@@ -276,6 +296,10 @@ func c02R3(p *Prog, r *Report) {
 			continue
 		}
 		r.Fn(FuncName(fn))
+		if len(fn.Params) > 1 {
+			r.Unk("C02.R3", FuncName(fn)+" scan start", p.Pos(fn.Pos()), "the scan start is computed by a function that takes parameters besides its receiver (one function serving several passes): what it returns for each caller is not decided")
+			continue
+		}
 		dTerms, desc, msg := scanStartDelay(p, r, fn, 0)
 		good := msg == ""
 		if good {
@@ -333,6 +357,7 @@ func c02R3(p *Prog, r *Report) {
 				return
 			}
 			found = true
+			c02CutAtTested(p, r, fn, c, phi)
 			for _, e := range phi.Edges {
 				if call, ok := e.(*ssa.Call); ok && call.Call.StaticCallee() != nil && call.Call.StaticCallee().Name() == "firstPotentialTriggerFrame" {
 					startOK = true
@@ -388,11 +413,100 @@ func c02R3(p *Prog, r *Report) {
 			}
 			rest := l.Sub(polySym(phiSym))
 			if rest.Equal(polySym(recv+".NSamples").Sub(polySym(recv+".NPresamples"))) && rr.String() == "len("+recv+".stream.DataSegment.rawData)" {
+				if !found {
+					for v, id := range c.ids {
+						if ph, ok := v.(*ssa.Phi); ok && fmt.Sprintf("phi#%d", id) == phiSym {
+							c02CutAtTested(p, r, fn, c, ph)
+						}
+					}
+				}
 				found = true
 			}
 		})
 		r.Check(found, "C02.R3", FuncName(fn)+" scan end", p.Pos(fn.Pos()), "loop runs while t+NSamples-NPresamples < len(rawData)", "the auto-trigger loop is not bounded by t + NSamples - NPresamples < len(rawData)")
 	}
+}
+
+// c02CutAtTested: the scan-end test bounds the loop variable `tested`; a record cut directly in
+// the scan function must be cut at that very value, not at one that was changed after the test
+// (a changed index has not been shown to leave a whole record before the end of the data).
+func c02CutAtTested(p *Prog, r *Report, fn *ssa.Function, c *PolyCtx, tested *ssa.Phi) {
+	want := polySym(fmt.Sprintf("phi#%d", c.id(tested)))
+	n := 0
+	Instrs(fn, func(in ssa.Instruction) {
+		call, ok := in.(*ssa.Call)
+		if !ok || call.Call.StaticCallee() == nil || len(call.Call.Args) < 2 {
+			return
+		}
+		if nm := call.Call.StaticCallee().Name(); nm != "triggerAt" && nm != "triggerAtSpecificSamples" {
+			return
+		}
+		n++
+		key := FuncName(fn) + " cuts the record at the index the scan-end test bounded"
+		if n > 1 {
+			key += fmt.Sprintf(" #%d", n)
+		}
+		got := c.Of(call.Call.Args[1])
+		// another test of the same form on the very value that is cut, with the in-range side
+		// controlling the cut (a re-check after the index was moved)
+		recv := fn.Params[0].Name()
+		target := got.Add(polySym(recv + ".NSamples")).Sub(polySym(recv + ".NPresamples")).Sub(polySym("len(" + recv + ".stream.DataSegment.rawData)"))
+		rechecked := false
+		for _, ct := range controllingIfs(call.Block()) {
+			bo, ok := ct.If.Cond.(*ssa.BinOp)
+			if !ok {
+				continue
+			}
+			d := c.Of(bo.X).Sub(c.Of(bo.Y))
+			inRange := -1
+			switch {
+			case d.Equal(target) && bo.Op == token.LSS, d.Equal(target.Neg()) && bo.Op == token.GTR:
+				inRange = 0
+			case d.Equal(target) && bo.Op == token.GEQ, d.Equal(target.Neg()) && bo.Op == token.LEQ:
+				inRange = 1
+			}
+			if inRange == ct.Branch {
+				rechecked = true
+			}
+		}
+		switch {
+		case rechecked && !got.Equal(want):
+			r.OK("C02.R3", key, p.InstrPos(call), "the index is tested again against the end of the data before the cut")
+		case got.Equal(want):
+			r.OK("C02.R3", key, p.InstrPos(call), "same loop variable, unchanged between the test and the cut")
+		case stripConv(call.Call.Args[1]) != nil && isPhiInLoopOf(stripConv(call.Call.Args[1]), tested):
+			r.Bad("C02.R3", key, p.InstrPos(call), "the record is cut at an index that was changed after the scan-end test (another merge of the loop variable): nothing shows that a whole record lies before the end of the data there, so the record can run past the samples received")
+		default:
+			r.Unk("C02.R3", key, p.InstrPos(call), "the cut index "+got.String()+" is not the loop variable the scan-end test bounded; not decided whether it is in range")
+		}
+	})
+}
+
+// isPhiInLoopOf: v is a phi other than `tested`, fed (directly or through phis) by it.
+func isPhiInLoopOf(v ssa.Value, tested *ssa.Phi) bool {
+	phi, ok := v.(*ssa.Phi)
+	if !ok || phi == tested {
+		return false
+	}
+	seen := map[*ssa.Phi]bool{}
+	var feeds func(x *ssa.Phi) bool
+	feeds = func(x *ssa.Phi) bool {
+		if seen[x] {
+			return false
+		}
+		seen[x] = true
+		for _, e := range x.Edges {
+			e = stripConv(e)
+			if e == ssa.Value(tested) {
+				return true
+			}
+			if q, ok := e.(*ssa.Phi); ok && feeds(q) {
+				return true
+			}
+		}
+		return false
+	}
+	return feeds(phi)
 }
 
 // ---- R4 -----------------------------------------------------------------------------------
@@ -713,6 +827,57 @@ func c02R7(p *Prog, r *Report) {
 		r.Check(enable != "", "C02.R7", FuncName(f)+": records are created only when the pass is enabled", p.Pos(f.Pos()),
 			"every path to a record creation passes the true side of "+enable,
 			"a record can be created on a path that never tested an enable flag of the trigger state: records appear although that kind of trigger is switched off")
+		// (c) exclusivity: the edge-multi criterion replaces all the others; a pass that is not the
+		// edge-multi pass creates records only on the false side of a test of that flag (in the
+		// pass, or around its call)
+		if !strings.HasPrefix(enable, "EdgeMulti") && enable != "" {
+			excl := ""
+			falseSide := map[*ssa.BasicBlock]bool{}
+			Instrs(f, func(in ssa.Instruction) {
+				if fl, _, ft, ok := flagTest(in); ok && fl == "EdgeMulti" {
+					for _, sc := range in.Block().Succs {
+						if sc != ft {
+							falseSide[sc] = true
+						}
+					}
+				}
+			})
+			if len(falseSide) > 0 {
+				esc := ReachAvoiding(f, nil, func(x ssa.Instruction) bool { return falseSide[x.Block()] && x == x.Block().Instrs[0] }, func(x ssa.Instruction) bool { return makesRecord(x) })
+				if len(esc) == 0 {
+					excl = "the false side of EdgeMulti in the pass"
+				}
+			}
+			if excl == "" {
+				all, any := true, false
+				Instrs(trig, func(in ssa.Instruction) {
+					if CallOf(in) == nil {
+						return
+					}
+					calls := false
+					for _, g := range p.calledFuncs(in) {
+						calls = calls || g == f
+					}
+					if !calls {
+						return
+					}
+					any = true
+					gated := false
+					for _, ct := range controllingIfs(in.Block()) {
+						if fl, _, ft, ok := flagTest(ct.If); ok && fl == "EdgeMulti" && ct.If.Block().Succs[ct.Branch] != ft {
+							gated = true
+						}
+					}
+					all = all && gated
+				})
+				if any && all {
+					excl = "the false side of EdgeMulti around its call in " + FuncName(trig)
+				}
+			}
+			r.Check(excl != "", "C02.R7", FuncName(f)+": no records while the edge-multi trigger is in use", p.Pos(f.Pos()),
+				"every path to a record creation passes "+excl,
+				"this pass can create records while EdgeMulti is set: the edge-multi trigger is exclusive of all other kinds, so the channel then gets records that belong to no edge, duplicates of an edge's record and overlapping records")
+		}
 		// (b) direction: the other flags tested in the pass select the criterion; every path from
 		// entry to a record creation passes the true side of one of those tests
 		var dirs []string
@@ -1091,4 +1256,435 @@ func maxTermVals(v ssa.Value) []ssa.Value {
 		return out
 	}
 	return []ssa.Value{v}
+}
+
+// ---- R9 -----------------------------------------------------------------------------------
+
+// c02R9: a pass that walks the records found so far with a cursor (records[k].trigFrame), and the
+// LastTrigger bookkeeping that takes the last record as the latest, need those records in time
+// order.  Decided in TriggerData: every such consumer receives a value that is empty, or was put
+// in order by a sort that dominates the use, or is the result of a pass whose every return either
+// hands its (ordered) argument back unchanged or is dominated by a sort of the returned slice.
+func c02R9(p *Prog, r *Report) {
+	td := p.Func("", "DataStreamProcessor", "TriggerData")
+	if td == nil {
+		return // reported by R4
+	}
+	isRecSlice := func(t types.Type) bool {
+		sl, ok := t.Underlying().(*types.Slice)
+		if !ok {
+			return false
+		}
+		pt, ok := sl.Elem().(*types.Pointer)
+		if !ok {
+			return false
+		}
+		n, ok := pt.Elem().(*types.Named)
+		return ok && n.Obj().Name() == "DataRecord"
+	}
+	// cellOf: v is a load of a local variable kept in memory (captured by a closure): that variable
+	cellOf := func(v ssa.Value) *ssa.Alloc {
+		if ld, ok := v.(*ssa.UnOp); ok && ld.Op == token.MUL {
+			if a, ok := ld.X.(*ssa.Alloc); ok {
+				return a
+			}
+		}
+		return nil
+	}
+	storesTo := func(a *ssa.Alloc) []*ssa.Store {
+		var out []*ssa.Store
+		for _, ref := range *a.Referrers() {
+			if st, ok := ref.(*ssa.Store); ok && st.Addr == ssa.Value(a) {
+				out = append(out, st)
+			}
+		}
+		return out
+	}
+	before := func(a, b ssa.Instruction) bool { // a can execute before b
+		if a.Block() == b.Block() {
+			for _, in := range a.Block().Instrs {
+				if in == a {
+					return true
+				}
+				if in == b {
+					break
+				}
+			}
+		}
+		return a.Block() != b.Block() && BlockReaches(a.Block(), b.Block()) || InstrReaches(a, b)
+	}
+	// sorted(fn, v, at): a sort of v (or of the variable v was loaded from, not assigned since)
+	// dominates `at`
+	sorted := func(fn *ssa.Function, v ssa.Value, at ssa.Instruction) bool {
+		done := false
+		Instrs(fn, func(in ssa.Instruction) {
+			call, ok := in.(*ssa.Call)
+			if !ok || call.Call.IsInvoke() || len(call.Call.Args) == 0 || done {
+				return
+			}
+			switch CalleeName(&call.Call) {
+			case "sort.Sort", "sort.Stable", "sort.Slice", "sort.SliceStable", "slices.SortFunc", "slices.SortStableFunc":
+			default:
+				return
+			}
+			a := call.Call.Args[0]
+			for {
+				switch x := a.(type) {
+				case *ssa.MakeInterface:
+					a = x.X
+					continue
+				case *ssa.ChangeType:
+					a = x.X
+					continue
+				case *ssa.Convert:
+					a = x.X
+					continue
+				}
+				break
+			}
+			if !InstrDominates(in, at) {
+				return
+			}
+			if a == v {
+				done = true
+				return
+			}
+			if ca, cv := cellOf(a), cellOf(v); ca != nil && ca == cv {
+				clean := true
+				for _, st := range storesTo(ca) {
+					if before(in, st) && before(st, at) {
+						clean = false
+					}
+				}
+				done = clean
+			}
+		})
+		return done
+	}
+	// the records parameter of a pass: its index, or -1
+	recParam := func(g *ssa.Function) int {
+		for k, prm := range g.Params {
+			if isRecSlice(prm.Type()) {
+				return k
+			}
+		}
+		return -1
+	}
+	// aliases of parameter j inside g and its closures: the parameter, loads of the local
+	// variable it was stored into, loads of that variable in closures
+	aliases := func(g *ssa.Function, j int) (map[ssa.Value]bool, *ssa.Alloc) {
+		out := map[ssa.Value]bool{g.Params[j]: true}
+		var cell *ssa.Alloc
+		for _, ref := range *g.Params[j].Referrers() {
+			if st, ok := ref.(*ssa.Store); ok && st.Val == ssa.Value(g.Params[j]) {
+				if a, ok := st.Addr.(*ssa.Alloc); ok {
+					cell = a
+				}
+			}
+		}
+		if cell != nil {
+			var addrs []ssa.Value
+			addrs = append(addrs, cell)
+			for _, ref := range *cell.Referrers() {
+				if mc, ok := ref.(*ssa.MakeClosure); ok {
+					for k, b := range mc.Bindings {
+						if b == ssa.Value(cell) {
+							addrs = append(addrs, mc.Fn.(*ssa.Function).FreeVars[k])
+						}
+					}
+				}
+			}
+			for _, a := range addrs {
+				for _, ref := range *a.Referrers() {
+					if ld, ok := ref.(*ssa.UnOp); ok && ld.Op == token.MUL {
+						out[ld] = true
+					}
+				}
+			}
+		}
+		return out, cell
+	}
+	// consumes: the pass looks at the records it was given (not only appends to them / returns them)
+	consumes := func(g *ssa.Function, j int) bool {
+		if g == nil || g.Blocks == nil || j < 0 {
+			return false
+		}
+		al, _ := aliases(g, j)
+		for v := range al {
+			for _, ref := range *v.Referrers() {
+				switch x := ref.(type) {
+				case *ssa.IndexAddr, *ssa.Index, *ssa.Range:
+					return true
+				case *ssa.Store:
+					if _, isCell := x.Addr.(*ssa.Alloc); !isCell && x.Val == v {
+						return true // kept in a structure (a cursor object)
+					}
+				case *ssa.Call:
+					if h := x.Call.StaticCallee(); h != nil && isModuleFn(h) && !x.Call.IsInvoke() {
+						return true
+					}
+				}
+			}
+		}
+		return false
+	}
+	// The analysis is made twice, once assuming the edge-multi flag set and once assuming it
+	// clear (conditional constant propagation over every function looked at): the passes exclude
+	// each other through that flag, so which returns can run, and which list is still empty,
+	// depends on it.
+	type verdict struct {
+		why string
+		bad bool
+		at  ssa.Instruction
+	}
+	worst := map[string]verdict{}
+	var order []string
+	note := func(key, why string, bad bool, at ssa.Instruction, assume string) {
+		if why != "" {
+			why = "(" + assume + ") " + why
+		}
+		old, seen := worst[key]
+		if !seen {
+			order = append(order, key)
+			worst[key] = verdict{why, bad, at}
+			return
+		}
+		if (why != "" && old.why == "") || (bad && !old.bad) {
+			worst[key] = verdict{why, bad, at}
+		}
+	}
+	isNil := func(v ssa.Value) bool {
+		c, ok := v.(*ssa.Const)
+		return ok && c.IsNil()
+	}
+	for _, flagVal := range []bool{true, false} {
+		assume := "edge-multi trigger off"
+		if flagVal {
+			assume = "edge-multi trigger on"
+		}
+		fenv := map[string]lat{"EdgeMulti": latBool(flagVal)}
+		memo := map[*ssa.Function]*sccpResult{}
+		resOf := func(g *ssa.Function) *sccpResult {
+			if rs, ok := memo[g]; ok {
+				return rs
+			}
+			// a function that stores the flag is analysed without the assumption
+			fe := fenv
+			if len(StoresTo(g, "", "EdgeMulti")) > 0 {
+				fe = nil
+			}
+			rs := sccpFields(g, nil, fe)
+			memo[g] = rs
+			return rs
+		}
+		resTD := resOf(td)
+		// passOut: time order (why == "" when ordered) and emptiness of what pass g returns,
+		// given the state of its argument
+		passOut := func(g *ssa.Function, j int, argWhy string, argBad, argEmpty bool) (why string, bad, empty bool) {
+			if g == nil || g.Blocks == nil || !isModuleFn(g) {
+				return "result of a call that is not resolved", false, false
+			}
+			rs := resOf(g)
+			var al map[ssa.Value]bool
+			var cell *ssa.Alloc
+			if j >= 0 {
+				al, cell = aliases(g, j)
+			}
+			empty = argEmpty
+			nret := 0
+			Instrs(g, func(in ssa.Instruction) {
+				ret, ok := in.(*ssa.Return)
+				if !ok || why != "" || !rs.Executable(ret) {
+					return
+				}
+				for _, res := range ret.Results {
+					if !isRecSlice(res.Type()) {
+						continue
+					}
+					nret++
+					pass := j >= 0 && res == ssa.Value(g.Params[j])
+					if !pass && al[res] && cell != nil && cellOf(res) == cell {
+						// the variable still holds the argument: no other assignment can come before
+						pass = true
+						for _, st := range storesTo(cell) {
+							if st.Val != ssa.Value(g.Params[j]) && before(st, ret) {
+								pass = false
+							}
+						}
+					}
+					if pass {
+						if argWhy != "" {
+							why, bad = argWhy, argBad
+						}
+						continue
+					}
+					empty = false
+					if sorted(g, res, ret) {
+						continue
+					}
+					if argEmpty {
+						continue // first pass: appends in scan order onto an empty list
+					}
+					why = fmt.Sprintf("%s returns at %s a list it appended to (after the records of the earlier passes) without putting it in time order", FuncName(g), p.InstrPos(ret))
+					// a pass that looks at the earlier records knows there can be some; one that never
+					// does was written as a first pass, and whether it is ever handed any is not decided
+					bad = consumes(g, j)
+				}
+			})
+			if nret == 0 {
+				empty = false
+			}
+			return why, bad, empty
+		}
+		// a table of passes run in a loop, records = pass(records): the passes in order, the value
+		// the loop starts from
+		tableLoop := func(x *ssa.Call) (fns []*ssa.Function, init ssa.Value, j int, ok bool) {
+			if x.Call.IsInvoke() || x.Call.StaticCallee() != nil {
+				return
+			}
+			vals, _ := unrollArrayLoop(x, x.Call.Value)
+			if len(vals) == 0 {
+				return
+			}
+			j = -1
+			for k, a := range x.Call.Args {
+				if isRecSlice(a.Type()) {
+					j = k
+				}
+			}
+			if j < 0 {
+				return
+			}
+			phi, isPhi := x.Call.Args[j].(*ssa.Phi)
+			if !isPhi || len(phi.Edges) != 2 {
+				return
+			}
+			switch {
+			case phi.Edges[0] == ssa.Value(x):
+				init = phi.Edges[1]
+			case phi.Edges[1] == ssa.Value(x):
+				init = phi.Edges[0]
+			default:
+				return
+			}
+			for _, v := range vals {
+				var g *ssa.Function
+				switch f := v.(type) {
+				case *ssa.MakeClosure:
+					g = Unwrap(f.Fn.(*ssa.Function))
+				case *ssa.Function:
+					g = Unwrap(f)
+				}
+				if g == nil {
+					return nil, nil, 0, false
+				}
+				fns = append(fns, g)
+			}
+			return fns, init, j, true
+		}
+		var ordered func(v ssa.Value, at ssa.Instruction, depth int) (why string, bad, empty bool)
+		// runTable: the state after each pass of a table loop; reports the consumers when report is set
+		runTable := func(x *ssa.Call, fns []*ssa.Function, init ssa.Value, depth int, report bool) (string, bool, bool) {
+			why, bad, empty := ordered(init, x, depth+1)
+			for _, g := range fns {
+				j := recParam(g)
+				if report && consumes(g, j) {
+					note(FuncName(g)+" walks time-ordered records", why, bad, x, assume)
+				}
+				why, bad, empty = passOut(g, j, why, bad, empty)
+			}
+			return why, bad, empty
+		}
+		ordered = func(v ssa.Value, at ssa.Instruction, depth int) (string, bool, bool) {
+			if depth > 8 {
+				return "too many steps", false, false
+			}
+			if isNil(v) {
+				return "", false, true
+			}
+			if sorted(td, v, at) {
+				return "", false, false
+			}
+			switch x := v.(type) {
+			case *ssa.Phi:
+				allEmpty := true
+				n := 0
+				for i, e := range x.Edges {
+					if !resTD.EdgeExecutable(x.Block().Preds[i], x.Block()) {
+						continue
+					}
+					n++
+					w, b, em := ordered(e, at, depth+1)
+					if w != "" {
+						return w, b, false
+					}
+					allEmpty = allEmpty && em
+				}
+				return "", false, allEmpty && n > 0
+			case *ssa.Call:
+				if fns, init, _, ok := tableLoop(x); ok {
+					return runTable(x, fns, init, depth, false)
+				}
+				g := x.Call.StaticCallee()
+				if g == nil || x.Call.IsInvoke() {
+					return "result of a call that is not resolved", false, false
+				}
+				j := -1
+				for k, a := range x.Call.Args {
+					if isRecSlice(a.Type()) {
+						j = k
+					}
+				}
+				argWhy, argBad, argEmpty := "", false, false
+				if j >= 0 {
+					argWhy, argBad, argEmpty = ordered(x.Call.Args[j], x, depth+1)
+				}
+				return passOut(g, j, argWhy, argBad, argEmpty)
+			}
+			return "value of a form that is not followed", false, false
+		}
+		c := NewPolyCtx(td)
+		Instrs(td, func(in ssa.Instruction) {
+			if !resTD.Executable(in) {
+				return
+			}
+			switch x := in.(type) {
+			case *ssa.Call:
+				if fns, init, _, ok := tableLoop(x); ok {
+					runTable(x, fns, init, 0, true)
+					return
+				}
+				g := x.Call.StaticCallee()
+				if g == nil || x.Call.IsInvoke() || !isModuleFn(g) {
+					return
+				}
+				for k, a := range x.Call.Args {
+					if isRecSlice(a.Type()) && consumes(g, k) {
+						why, bad, _ := ordered(a, x, 0)
+						note(FuncName(g)+" walks time-ordered records", why, bad, x, assume)
+					}
+				}
+			case *ssa.IndexAddr:
+				if !isRecSlice(x.X.Type()) {
+					return
+				}
+				// the element taken as "the last trigger": index len-1
+				if c.Of(x.Index).Equal(c.lenOf(x.X).Sub(polyConst(1))) {
+					why, bad, _ := ordered(x.X, x, 0)
+					note("the last record is the latest", why, bad, x, assume)
+				}
+			}
+		})
+	}
+	for _, key := range order {
+		v := worst[key]
+		switch {
+		case v.why == "":
+			r.OK("C02.R9", key, p.InstrPos(v.at), "empty, sorted before the use, or returned by passes that sort what they append (with the edge-multi trigger on and off)")
+		case v.bad:
+			r.Bad("C02.R9", key, p.InstrPos(v.at), v.why+": the cursor over the found triggers then meets them out of order (records next to an already triggered pulse, auto records repeated over the same stretch)")
+		default:
+			r.Unk("C02.R9", key, p.InstrPos(v.at), "not decided whether the records are in time order here: "+v.why)
+		}
+	}
 }
